@@ -38,7 +38,8 @@ def main():
         out = core.Outcome()
         out.corr_failures.append(dict(note='harness exception', traceback=traceback.format_exc()[-3000:]))
         traceback.print_exc()
-    return core.finish(pid, a.tier, seed, t0, audit, out, getattr(mod, 'ASSUMPTIONS', None))
+    chk = core.coqchk(pid) if (a.tier == 'thorough' and not os.environ.get('VERIF_NO_COQCHK')) else None
+    return core.finish(pid, a.tier, seed, t0, audit, out, getattr(mod, 'ASSUMPTIONS', None), chk)
 
 
 if __name__ == '__main__':
